@@ -158,6 +158,12 @@ func (m *monitors) published(w *world, data []byte) {
 	if !found {
 		m.fail("C01 checkpoint %v became publicly readable before being committed to the lock store", t)
 	}
+	// uploads_current (the premise of C01_published_history_append_only): the uploaded checkpoint is
+	// the value the lock store holds right now
+	m.checks["C01.upload-is-current"]++
+	if n := len(m.lockhist); n > 0 && m.lockhist[n-1] != t {
+		m.fail("C06-stale-upload checkpoint upload older than the current lock value: uploading size %d ts %d while the lock store holds size %d ts %d", t.size, t.ts, m.lockhist[n-1].size, m.lockhist[n-1].ts)
+	}
 	if n := len(m.pubhist); n > 0 && t.size < m.pubhist[n-1].size {
 		m.fail("C06-stale-upload published history shrinks: size %d after %d (checkpoint upload older than the current lock value)", t.size, m.pubhist[n-1].size)
 	}
